@@ -42,13 +42,20 @@ def op_build(c):
     except Exception as e:  # noqa
         return ['parse:' + type(e).__name__]
     order = random.Random(c['order_seed']) if c.get('order_seed') is not None else None
-    try:
-        res = buildlib.build(c['cfg'], fc, order)
-    except RecursionError:
-        return ['RecursionError']
-    except Exception as e:  # noqa
-        return exc(e)
-    return [0, buildlib.files_obs(res)]
+    def once():
+        try:
+            res = buildlib.build(c['cfg'], fc, order)
+        except RecursionError:
+            return ['RecursionError']
+        except Exception as e:  # noqa
+            return exc(e)
+        return [0, buildlib.files_obs(res)]
+    first = once()
+    if c.get('twice'):
+        second = once()   # the same parsed model and an equal configuration are still a valid (or invalid) input
+        if second[:1] != first[:1] or (first[0] == 0 and second[1] != first[1]):
+            return ['UnstableAcrossBuilds', str(first)[:300], str(second)[:300]]
+    return first
 
 
 main({'templates': op_templates, 'support': op_support, 'build': op_build})
